@@ -342,6 +342,45 @@ func (s *Sched) abort() {
 	}
 }
 
+// SharedWritten returns the classes that have a location accessed by two or more
+// threads with at least one write in this execution (candidates for dependence).
+func (s *Sched) SharedWritten() map[string]bool {
+	type key struct {
+		class string
+		addr  interface{}
+	}
+	type st struct {
+		first   int
+		multi   bool
+		written bool
+	}
+	locs := map[key]*st{}
+	for _, a := range s.Acc {
+		if a.Addr == nil {
+			continue
+		}
+		k := key{a.Class, a.Addr}
+		x, ok := locs[k]
+		if !ok {
+			x = &st{first: a.Thread}
+			locs[k] = x
+		}
+		if a.Thread != x.first {
+			x.multi = true
+		}
+		if a.Write {
+			x.written = true
+		}
+	}
+	out := map[string]bool{}
+	for k, x := range locs {
+		if x.multi && x.written {
+			out[k.class] = true
+		}
+	}
+	return out
+}
+
 // Conflict is a pair of accesses to one location by two threads, at least one a
 // write, unordered by happens-before (program order + lock release/acquire).
 type Conflict struct {
